@@ -52,11 +52,110 @@ impl MPath {
     }
 }
 
-#[derive(Clone, Debug, Serialize, Deserialize)]
+/// what an import names: an id, or a string (`str_`) that may carry leading path segments
+/// (`'../m5/m1'` → segs [None, Some(5)]); `dot` only selects the spelling `./…` (same path)
+#[derive(Clone, Debug, Default, Serialize, PartialEq)]
+struct Ref {
+    name: Name,
+    #[serde(default, rename = "str")]
+    str_: bool,
+    #[serde(default)]
+    segs: Vec<Option<Name>>,
+    #[serde(default)]
+    dot: bool,
+}
+
+impl From<Name> for Ref {
+    fn from(n: Name) -> Ref {
+        Ref { name: n, ..Default::default() }
+    }
+}
+
+impl From<&Name> for Ref {
+    fn from(n: &Name) -> Ref {
+        Ref { name: *n, ..Default::default() }
+    }
+}
+
+impl<'de> Deserialize<'de> for Ref {
+    fn deserialize<D: serde::Deserializer<'de>>(d: D) -> Result<Ref, D::Error> {
+        #[derive(Deserialize)]
+        #[serde(untagged)]
+        enum Repr {
+            N(Name),
+            Full {
+                name: Name,
+                #[serde(default, rename = "str")]
+                str_: bool,
+                #[serde(default)]
+                segs: Vec<Option<Name>>,
+                #[serde(default)]
+                dot: bool,
+            },
+        }
+        Ok(match Repr::deserialize(d)? {
+            Repr::N(n) => n.into(),
+            Repr::Full { name, str_, segs, dot } => Ref { name, str_, segs, dot },
+        })
+    }
+}
+
+impl Ref {
+    fn sexp(&self) -> String {
+        if !self.str_ && self.segs.is_empty() {
+            self.name.to_string()
+        } else {
+            let mut s = format!("(r {} {}", self.name, self.str_ as u8);
+            for g in &self.segs {
+                match g {
+                    Some(n) => s.push_str(&format!(" {}", n)),
+                    None => s.push_str(" .."),
+                }
+            }
+            s.push(')');
+            s
+        }
+    }
+    /// the text between the quotes of a string import
+    fn path_text(&self) -> String {
+        let mut s = String::new();
+        if self.dot {
+            s.push_str("./");
+        }
+        for g in &self.segs {
+            match g {
+                Some(n) => s.push_str(&name_str(*n)),
+                None => s.push_str(".."),
+            }
+            s.push('/');
+        }
+        s.push_str(&name_str(self.name));
+        s
+    }
+    fn src(&self) -> String {
+        if self.str_ { format!("'{}'", self.path_text()) } else { name_str(self.name) }
+    }
+}
+
+#[derive(Clone, Debug, Default, Serialize, Deserialize)]
 struct Item {
     name: Name,
     #[serde(rename = "as")]
     as_: Option<Name>,
+    #[serde(default, rename = "str")]
+    str_: bool,
+    #[serde(default)]
+    segs: Vec<Option<Name>>,
+}
+
+impl Item {
+    fn rf(&self) -> Ref {
+        Ref { name: self.name, str_: self.str_, segs: self.segs.clone(), dot: false }
+    }
+    /// the local the item binds, if any
+    fn target(&self) -> Option<Name> {
+        if self.str_ { self.as_ } else { Some(self.as_.unwrap_or(self.name)) }
+    }
 }
 
 /// entry of a map pattern: `key`, `key as target`, `key as _` (target None); `str_key` only selects
@@ -98,9 +197,9 @@ enum Act {
     ExportId(Name, Name),
     Show(u32, Name),
     Import(Vec<Item>),
-    From(Name, Vec<Item>),
-    FromAll(Name),
-    Try(Name, u32),
+    From(Ref, Vec<Item>),
+    FromAll(Ref),
+    Try(Ref, u32),
     Fail(u32),
     /// `[export] t1, t2, … = r1, r2, …`
     Pat(bool, Vec<Target>, Vec<Rhs>),
@@ -142,9 +241,12 @@ struct Scenario {
     export_alias: bool,
 }
 
+/// names 200 + 10·a + b are the dotted module names `m<a>.v<b>`
 fn name_str(n: Name) -> String {
     if n == 99 {
         "string".into()
+    } else if n >= 200 {
+        format!("m{}.v{}", (n - 200) / 10, (n - 200) % 10)
     } else if n < 50 {
         format!("m{}", n)
     } else {
@@ -161,8 +263,8 @@ fn names_sexp(ns: &[Name]) -> String {
 
 fn item_sexp(i: &Item) -> String {
     match i.as_ {
-        None => format!("(i {})", i.name),
-        Some(a) => format!("(i {} {})", i.name, a),
+        None => format!("(i {})", i.rf().sexp()),
+        Some(a) => format!("(i {} {})", i.rf().sexp(), a),
     }
 }
 
@@ -174,9 +276,9 @@ fn act_sexp(a: &Act) -> String {
         Act::ExportId(k, s) => format!("(exportid {} {})", k, s),
         Act::Show(m, k) => format!("(show {} {})", m, k),
         Act::Import(items) => format!("(import {})", items.iter().map(item_sexp).collect::<Vec<_>>().join(" ")),
-        Act::From(m, items) => format!("(from {} {})", m, items.iter().map(item_sexp).collect::<Vec<_>>().join(" ")),
-        Act::FromAll(m) => format!("(fromall {})", m),
-        Act::Try(m, mk) => format!("(try {} {})", m, mk),
+        Act::From(m, items) => format!("(from {} {})", m.sexp(), items.iter().map(item_sexp).collect::<Vec<_>>().join(" ")),
+        Act::FromAll(m) => format!("(fromall {})", m.sexp()),
+        Act::Try(m, mk) => format!("(try {} {})", Ref { str_: true, ..m.clone() }.sexp(), mk),
         Act::Fail(mk) => format!("(fail {})", mk),
         Act::Pat(e, ts, rs) => format!(
             "(pat {} ({}) ({}))",
@@ -250,8 +352,8 @@ fn request(sc: &Scenario) -> String {
 
 fn item_src(i: &Item) -> String {
     match i.as_ {
-        None => name_str(i.name),
-        Some(a) => format!("{} as {}", name_str(i.name), name_str(a)),
+        None => i.rf().src(),
+        Some(a) => format!("{} as {}", i.rf().src(), name_str(a)),
     }
 }
 
@@ -265,13 +367,13 @@ fn act_src(a: &Act, ind: &str, out: &mut Vec<String>) {
         Act::Import(items) => out.push(format!("{ind}import {}", items.iter().map(item_src).collect::<Vec<_>>().join(", "))),
         Act::From(m, items) => out.push(format!(
             "{ind}from {} import {}",
-            name_str(*m),
+            m.src(),
             items.iter().map(item_src).collect::<Vec<_>>().join(", ")
         )),
-        Act::FromAll(m) => out.push(format!("{ind}from {} import *", name_str(*m))),
+        Act::FromAll(m) => out.push(format!("{ind}from {} import *", m.src())),
         Act::Try(m, mk) => {
             out.push(format!("{ind}try"));
-            out.push(format!("{ind}  import '{}'", name_str(*m)));
+            out.push(format!("{ind}  import '{}'", m.path_text()));
             out.push(format!("{ind}catch zerr"));
             // no assignment in the handler: with export_top_level_ids it would be exported
             let mut first = true;
@@ -561,7 +663,7 @@ fn acts_of<'a>(body: &'a [TAct]) -> Vec<&'a Act> {
 fn imported_names(a: &Act) -> Vec<Name> {
     match a {
         Act::Import(items) => items.iter().map(|i| i.name).collect(),
-        Act::From(m, _) | Act::FromAll(m) | Act::Try(m, _) => vec![*m],
+        Act::From(m, _) | Act::FromAll(m) | Act::Try(m, _) => vec![m.name],
         _ => vec![],
     }
 }
@@ -942,7 +1044,7 @@ struct Gen<'a> {
 fn act_binds(a: &Act) -> Vec<Name> {
     match a {
         Act::Export(k, _) | Act::Assign(k, _) | Act::ExportId(k, _) => vec![*k],
-        Act::Import(items) | Act::From(_, items) => items.iter().map(|i| i.as_.unwrap_or(i.name)).collect(),
+        Act::Import(items) | Act::From(_, items) => items.iter().filter_map(|i| i.target()).collect(),
         Act::Pat(_, ts, _) => ts.iter().flat_map(target_bound).collect(),
         _ => vec![],
     }
@@ -963,7 +1065,7 @@ impl<'a> Gen<'a> {
     fn item(&mut self, pool: &[Name], allow_as: bool) -> Item {
         let name = *self.rng.pick(pool);
         let as_ = if allow_as && self.rng.chance(1, 3) { Some(*self.rng.pick(&[60, 61, 62, 63, 64, 65])) } else { None };
-        Item { name, as_ }
+        Item { name, as_, ..Default::default() }
     }
 
     /// an import statement in one of the forms; `targets` = names worth importing here
@@ -971,7 +1073,7 @@ impl<'a> Gen<'a> {
         let m = if self.rng.chance(1, 12) || targets.is_empty() { *self.rng.pick(all_names) } else { *self.rng.pick(targets) };
         match self.rng.weighted(&[5, 4, 3, if string_ok { 3 } else { 0 }]) {
             0 => {
-                let mut items = vec![Item { name: m, as_: if self.rng.chance(1, 3) { Some(*self.rng.pick(&[64, 65, 60])) } else { None } }];
+                let mut items = vec![Item { name: m, as_: if self.rng.chance(1, 3) { Some(*self.rng.pick(&[64, 65, 60])) } else { None }, ..Default::default() }];
                 if self.rng.chance(1, 5) && !targets.is_empty() {
                     items.push(self.item(targets, true));
                 }
@@ -980,12 +1082,12 @@ impl<'a> Gen<'a> {
             1 => {
                 let n = 1 + self.rng.below(2);
                 let items = (0..n).map(|_| self.item(&[60, 61, 62, 63, 60, 61], true)).collect();
-                Act::From(m, items)
+                Act::From(m.into(), items)
             }
-            2 => Act::FromAll(m),
+            2 => Act::FromAll(m.into()),
             _ => {
                 let mk = self.mk();
-                Act::Try(m, mk)
+                Act::Try(m.into(), mk)
             }
         }
     }
@@ -1156,9 +1258,9 @@ impl<'a> Gen<'a> {
                 // import whose module id is already a local of the same script)
                 if export_top && self.filter_f2 {
                     if let Act::FromAll(m) = &a {
-                        if self.bound.contains(m) {
+                        if !m.str_ && self.bound.contains(&m.name) {
                             let mk = self.mk();
-                            a = Act::Try(*m, mk);
+                            a = Act::Try(m.clone(), mk);
                         }
                     }
                 }
@@ -1328,12 +1430,12 @@ impl<'a> Gen<'a> {
             for e in &edges[i] {
                 if guarded && self.rng.chance(1, 2) {
                     let mk = self.mk();
-                    b.push(TAct::A(Act::Try(*e, mk)));
+                    b.push(TAct::A(Act::Try(e.into(), mk)));
                 } else {
                     match self.rng.below(3) {
-                        0 => b.push(TAct::A(Act::Import(vec![Item { name: *e, as_: None }]))),
-                        1 => b.push(TAct::A(Act::From(*e, vec![Item { name: 60, as_: Some(61) }]))),
-                        _ => b.push(TAct::A(Act::FromAll(*e))),
+                        0 => b.push(TAct::A(Act::Import(vec![Item { name: *e, as_: None, ..Default::default() }]))),
+                        1 => b.push(TAct::A(Act::From(e.into(), vec![Item { name: 60, as_: Some(61), ..Default::default() }]))),
+                        _ => b.push(TAct::A(Act::FromAll(e.into()))),
                     }
                 }
             }
@@ -1350,10 +1452,10 @@ impl<'a> Gen<'a> {
         for _ in 0..n_ops {
             let m = self.rng.below(total) as Name;
             let act = match self.rng.below(4) {
-                0 => Act::Import(vec![Item { name: m, as_: None }]),
-                1 => Act::From(m, vec![Item { name: 60, as_: None }, Item { name: 62, as_: Some(63) }]),
-                2 => Act::FromAll(m),
-                _ => Act::Try(m, self.mk()),
+                0 => Act::Import(vec![Item { name: m, as_: None, ..Default::default() }]),
+                1 => Act::From(m.into(), vec![Item { name: 60, as_: None, ..Default::default() }, Item { name: 62, as_: Some(63), ..Default::default() }]),
+                2 => Act::FromAll(m.into()),
+                _ => Act::Try(m.into(), self.mk()),
             };
             let mut body = vec![TAct::A(act)];
             if self.rng.chance(1, 2) {
@@ -1399,7 +1501,7 @@ fn wild_family(rng: &mut Rng) -> Scenario {
     let n = 2 + rng.below(3);
     let mut test_name = 70;
     for _ in 0..n {
-        b.push(TAct::A(Act::FromAll(rng.below(3) as Name)));
+        b.push(TAct::A(Act::FromAll((rng.below(3) as Name).into())));
         match rng.below(4) {
             0 => {
                 let tm = next();
@@ -1418,13 +1520,13 @@ fn wild_family(rng: &mut Rng) -> Scenario {
     files.push(FileDef { path: MPath { dir: vec![], name: 3, is_dir: false }, body: Some(b) });
     let mut ops = vec![];
     let export_top = rng.chance(1, 3);
-    ops.push(Op { dir: vec![], export_top: false, body: vec![TAct::A(Act::Try(3, next()))] });
+    ops.push(Op { dir: vec![], export_top: false, body: vec![TAct::A(Act::Try(3.into(), next()))] });
     let mut body = vec![];
     if rng.chance(1, 3) {
         body.push(TAct::A(Act::Export(*rng.pick(&keys), 700)));
     }
     for _ in 0..(2 + rng.below(3)) {
-        body.push(TAct::A(Act::FromAll(rng.below(3) as Name)));
+        body.push(TAct::A(Act::FromAll((rng.below(3) as Name).into())));
     }
     for k in keys.iter() {
         if rng.chance(2, 3) {
@@ -1504,7 +1606,7 @@ fn patterns_family(rng: &mut Rng) -> Scenario {
     // m1: re-exports through patterns
     let src: Name = if rng.chance(1, 3) { 69 } else { 0 };
     let mut b1 = vec![TAct::A(Act::Print(next()))];
-    b1.push(TAct::A(Act::Import(vec![Item { name: 0, as_: if src == 0 { None } else { Some(src) } }])));
+    b1.push(TAct::A(Act::Import(vec![Item { name: 0, as_: if src == 0 { None } else { Some(src) }, ..Default::default() }])));
     // a function created BEFORE the statements: reads the ids as non-locals when it runs
     let tm = next();
     let reads: Vec<Act> = all_ids.iter().filter(|_| rng.chance(1, 3)).map(|k| Act::Show(next(), *k)).collect();
@@ -1523,17 +1625,17 @@ fn patterns_family(rng: &mut Rng) -> Scenario {
     files.push(FileDef { path: MPath { dir: vec![], name: 1, is_dir: false }, body: Some(b1) });
     // host
     let mut ops = vec![];
-    let mut body = vec![TAct::A(Act::Import(vec![Item { name: 1, as_: None }])), TAct::A(Act::Show(next(), 1))];
-    let items: Vec<Item> = all_ids.iter().filter(|_| rng.chance(1, 4)).map(|k| Item { name: *k, as_: None }).collect();
+    let mut body = vec![TAct::A(Act::Import(vec![Item { name: 1, as_: None, ..Default::default() }])), TAct::A(Act::Show(next(), 1))];
+    let items: Vec<Item> = all_ids.iter().filter(|_| rng.chance(1, 4)).map(|k| Item { name: *k, as_: None, ..Default::default() }).collect();
     if !items.is_empty() {
-        body.push(TAct::A(Act::From(1, items.clone())));
+        body.push(TAct::A(Act::From(1.into(), items.clone())));
         for it in &items {
             body.push(TAct::A(Act::Show(next(), it.name)));
         }
     }
     ops.push(Op { dir: vec![], export_top: false, body });
     let et = rng.chance(1, 2);
-    let mut body = vec![TAct::A(Act::Try(1, next())), TAct::A(Act::FromAll(1))];
+    let mut body = vec![TAct::A(Act::Try(1.into(), next())), TAct::A(Act::FromAll(1.into()))];
     if et {
         // avoid the F-C18-2 shape: m1 is not a local here (string import above binds nothing)
     }
@@ -1546,7 +1648,7 @@ fn patterns_family(rng: &mut Rng) -> Scenario {
     // host-level exported assignment (export keyword or export_top_level_ids), read back by the next script
     let et2 = rng.chance(1, 2);
     let hsrc: Name = 0;
-    let mut body = vec![TAct::A(Act::Import(vec![Item { name: 0, as_: None }]))];
+    let mut body = vec![TAct::A(Act::Import(vec![Item { name: 0, as_: None, ..Default::default() }]))];
     let exp = !et2 || rng.chance(1, 2);
     body.push(TAct::A(stmt(rng, exp, hsrc)));
     ops.push(Op { dir: vec![], export_top: et2, body });
@@ -1584,7 +1686,7 @@ fn exhaustive3(idx: u32) -> Scenario {
         b.push(TAct::Main(mmk, if fail_here && fail_phase == 2 { vec![Act::Fail(next())] } else { vec![] }));
         for j in 0..3u32 {
             if mask & (1 << j) != 0 {
-                b.push(TAct::A(Act::Import(vec![Item { name: j, as_: None }])));
+                b.push(TAct::A(Act::Import(vec![Item { name: j, as_: None, ..Default::default() }])));
             }
         }
         if fail_here && fail_phase == 0 {
@@ -1597,7 +1699,7 @@ fn exhaustive3(idx: u32) -> Scenario {
     for round in 0..2 {
         for i in 0..3u32 {
             let _ = round;
-            ops.push(Op { dir: vec![], export_top: false, body: vec![TAct::A(Act::Try(i, next()))] });
+            ops.push(Op { dir: vec![], export_top: false, body: vec![TAct::A(Act::Try(i.into(), next()))] });
         }
     }
     Scenario { run_import_tests: true, host_tests: false, prelude: vec![], files, ops, family: "exhaustive3".into(), export_alias: false }
@@ -1627,7 +1729,7 @@ fn known_shape(sc: &Scenario) -> Option<&'static str> {
             for t in &o.body {
                 if let TAct::A(a) = t {
                     if let Act::FromAll(m) = a {
-                        if locals.contains(m) {
+                        if !m.str_ && locals.contains(&m.name) {
                             return Some("F-C18-2");
                         }
                     }
